@@ -3,7 +3,9 @@
 History machine: seeded sequences of public operations on every future kind, compared operation
 by operation with an explicit reference state machine (provider run count, callback log, exact
 exception class / identity)."""
-from .. import real
+import zlib
+
+from .. import real, prog
 from ..prog import SimError
 
 A = real.A
@@ -228,7 +230,9 @@ class C10(object):
             if op == "reset" and not kind.startswith("future"):
                 op = rng.choice(["value", "error", "is_computed"])
             ops.append([op, rng.randint(0, 99)])
-        return {"kind": kind, "ops": ops}
+        case = {"kind": kind, "ops": ops}
+        case["falsy_errors"] = zlib.crc32(repr(sorted(case.items())).encode()) % 4 == 0
+        return case
 
     def sample(self, case, r):
         if case.get("kind") == "sim":
@@ -247,6 +251,7 @@ class C10(object):
         out = []
         log = []
         W = _World(kind, log)
+        prog.FALSY[0] = bool(case.get("falsy_errors"))
         f = W.f
         ref = Ref(kind)
         subs = []
